@@ -99,6 +99,19 @@ class BIP85DeterministicEntropy(object):
                     )
                 )
 
+    @staticmethod
+    def correct_index(index: int) -> None:
+        """
+        Checks that derivation index is an integer. Anything else
+        (fraction, string ...) could smuggle extra path levels into
+        the derivation path when formatted.
+
+        :param index: derivation index
+        :return: None
+        """
+        if not isinstance(index, int):
+            raise ValueError("incorrect index: {}".format(index))
+
     def bip39_mnemonic(self, word_count: int = 24, index: int = 0) -> str:
         """
         Create BIP39 mnemonic sentence of length word count
@@ -109,6 +122,7 @@ class BIP85DeterministicEntropy(object):
         :return: mnemonic sentence
         """
         # for now (and maybe forever) only supported language is english
+        self.correct_index(index=index)
         path = "m/83696968'/39'/0'/{}'/{}'".format(word_count, index)
         entropy = self.entropy(path=path)
         width = self.byte_count_from_word_count(word_count=word_count)
@@ -122,6 +136,7 @@ class BIP85DeterministicEntropy(object):
         :param index: derivation index (default=0)
         :return: WIF private key
         """
+        self.correct_index(index=index)
         path = "m/83696968'/2'/{}'".format(index)
         entropy = self.entropy(path=path)
         self.correct_key(key_bytes=entropy[:32])
@@ -136,6 +151,7 @@ class BIP85DeterministicEntropy(object):
         :param index: derivation index (default=0)
         :return: extended private key (XPRV)
         """
+        self.correct_index(index=index)
         path = "m/83696968'/32'/{}'".format(index)
         entropy = self.entropy(path=path)
         left, right = entropy[:32], entropy[32:]
@@ -155,6 +171,7 @@ class BIP85DeterministicEntropy(object):
         if not 16 <= num_bytes <= 64:
             raise ValueError("Incorrect number of bytes specified."
                              " Has to be in closed interval <16-64>")
+        self.correct_index(index=index)
         path = "m/83696968'/128169'/{}'/{}'".format(num_bytes, index)
         entropy = self.entropy(path=path)
         return entropy[:num_bytes].hex()
@@ -236,6 +253,7 @@ class BIP85DeterministicEntropy(object):
         if not 20 <= pwd_len <= 86:
             raise ValueError("Incorrect password length specified."
                              " Has to be in closed interval <20-86>")
+        self.correct_index(index=index)
         path = "m/83696968'/707764'/{}'/{}'".format(pwd_len, index)
         entropy = self.entropy(path=path)
         entropy_b64 = base64.b64encode(entropy).decode().strip()
